@@ -29,6 +29,56 @@ TERMS = {
 VCS = ["str", "str", "str", "int", "clash", "reserved", "lower", "termlike", "inject", "inject", "lookalike", "freshnames", "spaced", "eqprint"]
 
 
+def dense_case(rng):
+    """two or three variables that all derive overlapping sets of short words: binary bodies over the variables (the
+    start symbol among them, so it is recursive), a terminal or two per variable, now and then an epsilon production -
+    many ways of splitting every factor of a word"""
+    nv = rng.choice([2, 3, 3])
+    prods = []
+    for h in range(nv):
+        for t in rng.sample([0, 1], rng.choice([1, 1, 2])):
+            prods.append([h, [["T", t]]])
+    for _ in range(rng.randint(nv, 2 * nv + 1)):
+        L = rng.choice([2, 2, 2, 3])
+        body = [["V", rng.randrange(nv)] if rng.random() < 0.8 else ["T", rng.randrange(2)] for _ in range(L)]
+        p_ = [rng.randrange(nv), body]
+        if p_ not in prods:
+            prods.append(p_)
+    if rng.random() < 0.4:
+        prods.append([rng.randrange(nv), []])
+    if rng.random() < 0.3:
+        prods.append([rng.randrange(nv), [["V", rng.randrange(nv)]]])
+    keep = rng.randint(max(2, len(prods) - 3), len(prods))
+    rng.shuffle(prods)
+    return {"nv": nv, "nt": 2, "start": 0, "prods": prods[:keep], "vc": rng.choice(["str", "str", "int", "lower"]), "dense": True}
+
+
+def layered_case(rng):
+    """no epsilon, no recursion: a variable only uses variables of later layers, bodies may START with variables and
+    alternatives share their tails or heads (S -> A X | B X): the shape top-down backtracking parsers are documented for"""
+    nv = rng.randint(3, 5)
+    prods = []
+    for h in range(nv - 1):
+        for _ in range(rng.choice([1, 2, 2, 3])):
+            L = rng.choice([1, 2, 2, 3])
+            body = [["V", rng.randrange(h + 1, nv)] if rng.random() < 0.7 else ["T", rng.randrange(2)] for _ in range(L)]
+            if [h, body] not in prods:
+                prods.append([h, body])
+        if rng.random() < 0.5 and prods and prods[-1][0] == h and len(prods[-1][1]) >= 2:
+            # an alternative with the same tail (or the same head) and another first (last) symbol
+            b = [list(x) for x in prods[-1][1]]
+            k = 0 if rng.random() < 0.6 else len(b) - 1
+            b[k] = ["V", rng.randrange(h + 1, nv)] if rng.random() < 0.7 else ["T", rng.randrange(2)]
+            if [h, b] not in prods:
+                prods.append([h, b])
+    for h in range(1, nv):
+        for t in rng.sample([0, 1], rng.choice([1, 1, 2])):
+            if [h, [["T", t]]] not in prods:
+                prods.append([h, [["T", t]]])
+    rng.shuffle(prods)
+    return {"nv": nv, "nt": 2, "start": 0, "prods": prods, "vc": rng.choice(["str", "str", "int", "lower"]), "layered": True}
+
+
 def random_case(rng, max_vars=4, max_terms=2, max_prods=7, max_body=4, vcs=None, p_eps=None):
     nv = rng.randint(1, max_vars)
     nt = rng.randint(1, max_terms)
